@@ -989,6 +989,7 @@ struct Planter<'a> {
     file: String,
     lost: Vec<String>,
     fuzzy: Vec<String>,
+    drop_module: bool, // every body of this module is dropped (fallback after an unresolved import in it)
     renamed: Vec<String>,
     shapes: Vec<(String, Vec<String>, usize, usize)>, // key, called names, closures in the body, closures with a contract
     locals: Vec<(String, Vec<(String, String)>)>,
@@ -1033,7 +1034,7 @@ impl<'a> Planter<'a> {
             sig.constness = None;
             self.log.push(format!("N9 const fn {} -> fn", key));
         }
-        let dropb = self.drop_bodies.contains(key) || self.drop_bodies.contains(&qkey)
+        let dropb = self.drop_module || self.drop_bodies.contains(key) || self.drop_bodies.contains(&qkey)
             || self.keep_only.as_ref().map(|k| !k.contains(key) && !k.contains(&qkey)).unwrap_or(false);
         if dropb && has_body {
             // The contract of a function whose body is dropped is ASSUMED.  The body becomes a diverging loop rather than
@@ -1830,6 +1831,8 @@ fn main() {
             }
         }
     }
+    let drop_module_bodies: BTreeSet<String> = cfg.get("drop_module_bodies").and_then(|v| v.as_array()).map(|a| a.iter().filter_map(|x| x.as_str().map(|s| s.to_string())).collect()).unwrap_or_default();
+    let drop_use_names: BTreeSet<String> = cfg.get("drop_use_names").and_then(|v| v.as_array()).map(|a| a.iter().filter_map(|x| x.as_str().map(|s| s.to_string())).collect()).unwrap_or_default();
     let config_name = cfg.get("config").and_then(|v| v.as_str()).unwrap_or("main").to_string();
     let mut contracts = parse_contracts(&args[3], &config_name);
     let out_dir = &args[4];
@@ -2032,6 +2035,37 @@ fn main() {
         };
         rw.visit_file_mut(&mut file);
         log.extend(rw.log);
+        // fallback after an unresolved import: the named imports are removed (the bodies of the module are dropped as well)
+        if !drop_use_names.is_empty() {
+            fn prune(t: UseTree, names: &BTreeSet<String>) -> Option<UseTree> {
+                match t {
+                    UseTree::Name(n) => if names.contains(&n.ident.to_string()) { None } else { Some(UseTree::Name(n)) },
+                    UseTree::Rename(r) => if names.contains(&r.ident.to_string()) || names.contains(&r.rename.to_string()) { None } else { Some(UseTree::Rename(r)) },
+                    UseTree::Glob(g) => Some(UseTree::Glob(g)),
+                    UseTree::Path(p) if names.contains(&p.ident.to_string()) => None,
+                    UseTree::Path(mut p) => match prune(*p.tree, names) {
+                        Some(t2) => { p.tree = Box::new(t2); Some(UseTree::Path(p)) }
+                        None => None,
+                    },
+                    UseTree::Group(mut g) => {
+                        let items: Vec<UseTree> = g.items.into_iter().filter_map(|x| prune(x, names)).collect();
+                        if items.is_empty() { None } else { g.items = items.into_iter().collect(); Some(UseTree::Group(g)) }
+                    }
+                }
+            }
+            let mut kept = vec![];
+            for it in std::mem::take(&mut file.items) {
+                if let Item::Use(mut u) = it {
+                    match prune(u.tree.clone(), &drop_use_names) {
+                        Some(t) => { u.tree = t; kept.push(Item::Use(u)); }
+                        None => { dropped_log.push(format!("{path}: DROPPED an import (unresolved; fallback)")); }
+                    }
+                } else {
+                    kept.push(it);
+                }
+            }
+            file.items = kept;
+        }
 
         // ---- marker planting
         let mut pl = Planter {
@@ -2047,6 +2081,7 @@ fn main() {
             file: path.to_string(),
             lost: vec![],
             fuzzy: vec![],
+            drop_module: drop_module_bodies.contains(module),
             renamed: vec![],
             shapes: vec![],
             locals: vec![],
